@@ -5,7 +5,7 @@
    RANGE frame is value-based, LAG is positional.  The reference semantics (what C17 prescribes) is at the end.
    No proofs in this file. *)
 From Coq Require Import ZArith String List Bool.
-Require Import V.Base.Calendar V.Base.CalendarFacts V.Model.Sem.
+Require Import V.Base.Calendar V.Model.Sem.
 Import ListNotations.
 Open Scope Z_scope.
 
